@@ -44,6 +44,7 @@ struct FamSpec {
   int cfg_a_max;                   // family-specific configuration range (0..cfg_a_max)
   unsigned max_batch;              // largest update batch
   std::function<std::string(const std::string& id, const std::string& msg, const char* after)> alloc_key;
+  std::set<std::string> leaky_keys;
 };
 
 void run_history(const Case& cs, const FamSpec& spec) {
@@ -60,13 +61,15 @@ void run_history(const Case& cs, const FamSpec& spec) {
   {
     History h(*spec.fam, env, spec.hooks);
     h.alloc_key = spec.alloc_key;
+    h.leaky_keys = spec.leaky_keys;
+    if (!spec.leaky_keys.empty()) h.leak_key = *spec.leaky_keys.begin();
     auto slot = [](const Op& op, size_t i) { return static_cast<int>(op.uarg(i) % NS); };
     // first usable slot starting at i (so that shrunk / mutated cases keep doing something)
     auto usable_from = [&](int i) { for (int k = 0; k < NS; ++k) { int j = (i + k) % NS; if (h.s[j].st == LIVE) return j; } return -1; };
     // two objects exist from the start
     h.op_new(0, static_cast<uint64_t>(cs.get("v0", 0)), 0);
     h.op_new(1, static_cast<uint64_t>(cs.get("v1", 0)), 1);
-    for (const Op& op : cs.ops) {
+    for (const Op& op : cs.ops) try {
       h.step++;
       const std::string& n = op.name;
       if (n == "new") h.op_new(slot(op, 0), op.uarg(1), static_cast<int>(op.uarg(2) & 1));
@@ -100,6 +103,12 @@ void run_history(const Case& cs, const FamSpec& spec) {
       else if (n == "del") h.op_destroy(slot(op, 0));
       else if (n == "qry") { int d = usable_from(slot(op, 0)); if (d >= 0) h.op_query(d, op.uarg(1)); }
       else if (n == "twin") { int d = usable_from(slot(op, 0)); if (d >= 0) h.op_twin(d, op.uarg(1), static_cast<unsigned>(op.uarg(2) % (spec.max_batch + 1)), static_cast<int>(op.uarg(3))); }
+    } catch (const std::logic_error&) {
+      // families whose calls can throw std::logic_error because of findings owned by another property (VarOpt: C16): the
+      // history ends here; every object must still die cleanly and the allocator must balance
+      if (!spec.hooks.tolerate_logic_error) throw;
+      vf::label("history-ended-by-tolerated-logic-error");
+      break;
     }
     h.finish();
     if (h.nt) vf::nontrivial();
@@ -172,7 +181,7 @@ std::vector<FamSpec>& specs() { static std::vector<FamSpec> v; return v; }
 
 template <typename F> void add_family(const std::string& sub, bool merge, bool reset, bool serde, int cfg_a_max, unsigned max_batch, HistoryHooks hooks = HistoryHooks()) {
   static FamilyImpl<F> impl;
-  specs().push_back(FamSpec{sub, &impl, std::move(hooks), merge, reset, serde, cfg_a_max, max_batch, nullptr});
+  specs().push_back(FamSpec{sub, &impl, std::move(hooks), merge, reset, serde, cfg_a_max, max_batch, nullptr, {}});
 }
 
 }  // namespace
@@ -207,12 +216,12 @@ int main(int argc, char** argv) {
   add_family<FrequentFamily<std::string>>("frequent-string", true, false, true, 0, 150);
   add_family<CountMinFamily>("count-min", true, false, true, 31, 60);
   {
-    HistoryHooks hv; hv.freeze_after_serde = true;   // a deserialized sampling-mode VarOpt sketch cannot be updated / reset (open findings of C16)
+    HistoryHooks hv; hv.freeze_after_serde = true; hv.tolerate_logic_error = true;   // a deserialized sampling-mode VarOpt sketch cannot be updated / reset (open findings of C16)
     add_family<VarOptFamily<Probe>>("varopt-probe", false, true, true, 0, 120, hv);
     add_family<VarOptFamily<std::string>>("varopt-string", false, true, true, 0, 120, hv);
   }
   {
-    HistoryHooks hu;
+    HistoryHooks hu; hu.tolerate_logic_error = true;
 #if !C19_VAROPT_UNION_COPY_ASSIGN_COMPILES
     hu.crash_key = [](const char* op, bool, bool) { return std::string(op) == "copy-assign" ? std::string(K_VAROPT_UNION_ASSIGN) : std::string(); };
 #endif
@@ -226,6 +235,12 @@ int main(int argc, char** argv) {
   add_family<DensityFamily>("density", true, false, true, 1, 80);
   for (FamSpec& sp : specs()) {
     std::string f = sp.sub.substr(0, sp.sub.find('-'));
+    if (sp.sub.rfind("varopt-union", 0) == 0) {
+      sp.alloc_key = [](const std::string& id, const std::string& msg, const char*) {
+        return id.rfind("probe-", 0) == 0 && msg.find("[during var_opt_union::get_result]") != std::string::npos ? std::string(varopt_union_result_key()) : std::string();
+      };
+      sp.leaky_keys.insert(varopt_union_result_key());
+    }
     if (f == "ebpps") sp.alloc_key = [](const std::string& id, const std::string& msg, const char*) { return ebpps_alloc_key(id, msg); };
     if (f == "kll" || f == "req" || f == "classic") sp.alloc_key = [f](const std::string& id, const std::string& msg, const char*) { return quant_alloc_key(f, id, msg); };
   }
